@@ -267,7 +267,7 @@ func init() {
 		Level: "exploration",
 		Rule: "metamorphic monitor (layout A vs layout B): each program gets a canonical rendering and k hostile ones: every separator kind (SP TAB VT FF CR LF CRLF U+0085 U+00A0, none where tokens may touch), comments with quotes/keywords/#/non-ASCII/raw bytes/NUL ended by CR, LF or end of input, ';' added after any statement and dropped where the next one cannot continue it, redundant parentheses around arbitrary sub-expressions. " +
 			"Compared with the canonical rendering: code and constants (from the program's parts), output, blocks, binding, error and diagnostic classes (positions excluded). Rejected programs (token-damaged) get whitespace/comment variation only. String literals with '#', ';', parentheses and every whitespace kind inside must reach the value byte for byte. " +
-			"distinct = hash of rendering; non-trivial = rendering differs from the canonical one and the pair was compared Also: every rendering is parsed through ParseFile in 1-3 random chunks and must compile to the same code; value-less literals and block names are generated and a rejected program must stay rejected under parenthesis / ';' variation; 70000-byte comments and whitespace runs (whole and through 4096-byte pages), 100..4000 redundant parentheses; parentheses dropped around a 'not' operand that follows a sign or a binary operator wherever the harness's parser groups both texts alike (2268 fixed pairs and the generated programs).",
+			"distinct = hash of rendering; non-trivial = rendering differs from the canonical one and the pair was compared Also: every rendering is parsed through ParseFile in 1-3 random chunks and must compile to the same code; value-less literals and block names are generated and a rejected program must stay rejected under parenthesis / ';' variation; 70000-byte comments and whitespace runs and 17 MiB of comment lines / 18 MiB of blanks between two statements (whole and through 4096-byte pages), 100..4000 redundant parentheses; parentheses dropped around a 'not' operand that follows a sign or a binary operator wherever the harness's parser groups both texts alike (2268 fixed pairs and the generated programs).",
 		Assumptions:   []string{"whole-input Parse (chunking is C07's matter)", "the independent separator-needed predicate decides where tokens may touch"},
 		MinNontrivial: 1000,
 		Run: func(c *core.Ctx) {
@@ -389,7 +389,7 @@ func init() {
 			}
 			// layout of extreme size: one comment or whitespace run of 70000 bytes between two tokens (streamed through
 			// the real 4096-byte pages and as one piece), and hundreds to thousands of redundant parentheses
-			for k := int64(0); k < 12; k++ {
+			for k := int64(0); k < 14; k++ {
 				i := n + 1000000 + k
 				if !c.Mine(i) {
 					continue
@@ -408,6 +408,11 @@ func init() {
 					variant = "var x = 7\nprint x + 2 * 3\ndef b { f = x }" + strings.Repeat("\t\r\n ", 20000)
 				case 4:
 					variant = strings.Repeat("\n", 66000) + "var x = 7 print x + 2 * 3 def b { f = x }"
+				case 12:
+					// layout beyond 16 MiB between two statements
+					variant = "var x = 7\nprint x + 2 * 3\n" + strings.Repeat("# ..............................................................\n", (17<<20)/64) + "def b { f = x }\n"
+				case 13:
+					variant = "var x = 7\nprint x + 2 * 3" + strings.Repeat(" \t", 9<<20) + "def b { f = x }\n"
 				default:
 					np := []int{100, 1000, 1022, 1023, 1024, 1025, 4000}[k-5]
 					variant = "var x = 7\nprint x + " + strings.Repeat("(", np) + "2" + strings.Repeat(")", np) + " * 3\ndef b { f = " + strings.Repeat("(", np) + "x" + strings.Repeat(")", np) + " }\n"
